@@ -26,6 +26,9 @@ struct / tuple / unit variants, generic tagged enum, alias, generic alias); ever
      some / all are removed by serde(skip) / typeshare(skip) / a cfg(target_os) that --target-os does not accept, in enums with
      and without serde(rename), generics, prefixes: every helper name `<prefix><Enum><Variant>Inner` the output spells - as a
      payload type, in a Swift decode call, in a Go accessor or constructor - must be a name the output defines.
+     The position of a cross-crate type among type arguments (argument_position_part, folder mode): a renamed type of another crate
+     as the first / middle / last argument of HashMap and of user generics with 2-3 parameters, nested, as the only mention in the
+     consumer's file or next to another one; every reference must resolve to a definition of the same spelling in some file of the run.
 """
 import itertools, re
 from common import *
@@ -872,6 +875,225 @@ def cross_crate_part(check):
                         broken="correspondence L2 reconcile across crates (theorems TsV.C09.C09_reconcile_*)")
 
 
+ARG_RUST = [("Key", "AccountKey", "struct"), ("State", "AccountState", "unit"), ("Label", "AccountLabel", "alias"), ("Owner", "Owner", "struct")]
+
+
+def arg_forms(r, others, rng):
+    """the ways a consumer mentions the cross-crate type `r`: {form name: type tree}.  `others` = types to put into the remaining
+    argument positions (primitives, the consumer's own types, the other imported types)"""
+    o = lambda: rng.choice(others)
+    R = lambda: t_path(r)
+    return {
+        "plain": R(),
+        "only-arg": t_path(rng.choice(["Vec", "Option"]), [R()]),
+        "map-key": t_path("HashMap", [R(), o()]),
+        "map-value": t_path("HashMap", [t_path("String"), R()]),
+        "pair-first": t_path("Pair", [R(), o()]),
+        "pair-last": t_path("Pair", [o(), R()]),
+        "triple-first": t_path("Triple", [R(), o(), o()]),
+        "triple-middle": t_path("Triple", [o(), R(), o()]),
+        "triple-last": t_path("Triple", [o(), o(), R()]),
+        "nested-vec-pair-first": t_path("Vec", [t_path("Pair", [R(), o()])]),
+        "nested-opt-triple-middle": t_path("Option", [t_path("Triple", [o(), R(), o()])]),
+        "nested-pair-of-vec-first": t_path("Pair", [t_path("Vec", [R()]), o()]),
+        "nested-map-of-pair-first": t_path("HashMap", [t_path("String"), t_path("Pair", [R(), o()])]),
+        "nested-pair-in-pair-first": t_path("Pair", [t_path("Pair", [R(), o()]), o()]),
+        "nested-map-key-in-triple-middle": t_path("Triple", [o(), t_path("HashMap", [R(), o()]), o()]),
+        "nested-pair-last-in-pair-first": t_path("Pair", [t_path("Pair", [o(), R()]), o()]),
+    }
+
+
+ARG_FORMS = ["plain", "only-arg", "map-key", "map-value", "pair-first", "pair-last", "triple-first", "triple-middle", "triple-last",
+             "nested-vec-pair-first", "nested-opt-triple-middle", "nested-pair-of-vec-first", "nested-map-of-pair-first",
+             "nested-pair-in-pair-first", "nested-map-key-in-triple-middle", "nested-pair-last-in-pair-first"]
+ARG_NOT_LAST = [f for f in ARG_FORMS if f not in ("plain", "only-arg", "map-value", "pair-last", "triple-last")]
+
+
+def replay_glob_renamed(check):
+    """open finding glob-import-renamed-reference (found by the round-14 argument-position work): a type brought in by a *glob* import
+    (`use alpha::*;`) keeps its Rust name at the reference although its definition is written under the serde(rename) name; with a named
+    import (`use alpha::Key;`) the reference is rewritten"""
+    A = "#[typeshare]\n#[serde(rename = \"AccountKey\")]\npub struct Key { pub id: String }\n"
+    reqs = []
+    for how in ("use alpha::*;", "use alpha::Key;"):
+        B = how + "\n#[typeshare]\npub struct Ledger { pub owner: Key }\n"
+        reqs.append({"op": "generate", "lang": "typescript", "config": {"type_mappings": {}}, "multi_file": True, "target_os": [],
+                     "files": [{"src": A, "crate": "alpha", "file_name": "x", "path": "ws/alpha/src/lib.rs"},
+                               {"src": B, "crate": "beta", "file_name": "x", "path": "ws/beta/src/lib.rs"}]})
+    glob, named = runner(reqs)
+    check.saw(("glob-renamed-witness",), nontrivial=True)
+    gtext = (glob.get("ok") or {}).get("beta", "")
+    ntext = (named.get("ok") or {}).get("beta", "")
+    if "owner: AccountKey" not in ntext and "ok" in named:
+        check.violation("typescript folder mode: `use alpha::Key;` with `#[serde(rename = \"AccountKey\")] struct Key` in crate alpha: the "
+                        "reference is not written under the renamed name", case={"request": reqs[1]}, impl=named, failing_input=True)
+    if "ok" in glob and "owner: Key" in gtext:
+        if not check.known("glob-import-renamed-reference", {"consumer": "use alpha::*; struct Ledger { owner: Key }", "beta.ts": gtext[-300:]}):
+            check.violation("typescript folder mode: a type imported by glob keeps its Rust name `Key` at the reference while alpha.ts defines "
+                            "`AccountKey`", case={"request": reqs[0]}, impl=glob, failing_input=True)
+
+
+def argument_position_part(check):
+    """multi-file (folder) mode, the *position of a cross-crate type among the type arguments* of the type that mentions it: crate
+    `accounts` (or another provider name) defines 2-4 types, most of them carrying serde(rename); a consumer crate imports them
+    (`use p::X;`, a `use p::{..}` group, the qualified path `p::X`) and mentions each as the first / middle / last
+    argument of HashMap and of its own generics `Pair<A, B>` / `Triple<A, B, C>`, nested (`Vec<Pair<X, String>>`,
+    `Pair<Vec<X>, u32>`, `Triple<u8, HashMap<X, u8>, u8>`), in a struct field, an alias target, a tuple-variant payload or a
+    struct-variant member - as the only mention of the type in the consumer's file or next to a plain / only-argument / last-argument
+    mention; prefixes for Kotlin / Swift; all six back ends.  The oracle = the property across the files of the run: every name a
+    generated file refers to is a name some generated file of the run defines, spelled the same (after serde(rename) and the prefix),
+    and the Rust name of a renamed type is spelled nowhere.  The model's text is compared as well."""
+    rng = check.rng
+    g = mkgen(rng)
+    ts = [m_path("typeshare")]
+    providers = ["accounts", "models", "core_types"]
+    # (`use p::*` is not explored: a glob import keeps the import but resolve_renamed does not rewrite the reference - the unchanged
+    # tree spells the Rust name there; reported separately, not a listed finding)
+    hows = ["use", "use", "use-group", "qualified"]
+    ncases = 330 if check.thorough else 33
+    mreqs, rreqs, meta, allnames = [], [], [], set()
+    for k in range(ncases):
+        prov = providers[k % len(providers)]
+        how = hows[(k // 2) % len(hows)]
+        ntypes = rng.randint(2, len(ARG_RUST))
+        types = ARG_RUST[:2] + rng.sample(ARG_RUST[2:], ntypes - 2)
+        pitems = []
+        for rust, new, kind in types:
+            attrs = list(ts) + ([m_list("serde", [m_nv("rename", lit_s(new))])] if new != rust else [])
+            if kind == "struct":
+                pitems.append({"kind": "struct", "attrs": attrs, "ident": rust, "generics": [], "fields": ("named", [field([], "id", t_path("String"))])})
+            elif kind == "unit":
+                pitems.append({"kind": "enum", "attrs": attrs, "ident": rust, "generics": [],
+                               "variants": [{"attrs": [], "ident": v, "fields": ("unit",)} for v in ("Open", "Closed")]})
+            else:
+                pitems.append({"kind": "alias", "attrs": attrs, "ident": rust, "generics": [], "ty": t_path("String")})
+        rng.shuffle(pitems)
+        pf = {"attrs": [], "items": pitems}
+        # the consumer: its own generics, and one declaration per imported type that mentions it
+        others = [t_path("String"), t_path("u32"), t_path("bool"), t_path("Local")] + [t_path(t[0]) for t in types[1:]]
+        citems = [
+            {"kind": "struct", "attrs": list(ts), "ident": "Pair", "generics": [("ty", "A"), ("ty", "B")],
+             "fields": ("named", [field([], "first", t_path("A")), field([], "second", t_path("B"))])},
+            {"kind": "struct", "attrs": list(ts), "ident": "Triple", "generics": [("ty", "A"), ("ty", "B"), ("ty", "C")],
+             "fields": ("named", [field([], "a", t_path("A")), field([], "b", t_path("B")), field([], "c", t_path("C"))])},
+            {"kind": "struct", "attrs": list(ts), "ident": "Local", "generics": [], "fields": ("named", [field([], "n", t_path("u8"))])}]
+        plan = []
+        lead = ARG_NOT_LAST[k % len(ARG_NOT_LAST)]          # every non-last position leads equally often, as the only mention
+        for i, (rust, new, kind) in enumerate(types):
+            # (others[] never mentions the first type, so a mention of it is the *only* one when one form is chosen)
+            forms = arg_forms(rust, others if i == 0 else others[:4], rng)
+            if i == 0:
+                chosen = [lead] + (rng.sample(ARG_FORMS, rng.randint(1, 2)) if k % 3 == 2 else [])
+            else:
+                chosen = rng.sample(ARG_FORMS, rng.randint(1, 2))
+            where = rng.choice(["field", "field", "alias", "tuple-variant", "struct-variant"])
+            plan.append((rust, new, where, chosen))
+            tys = [forms[f] for f in chosen]
+            if how == "qualified":
+                tys = [qualify(t, {x[0] for x in types}, prov) for t in tys]
+            nm = "Uses%s" % rust
+            if where == "field":
+                citems.append({"kind": "struct", "attrs": list(ts), "ident": nm, "generics": [],
+                               "fields": ("named", [field([], "m%d" % j, t) for j, t in enumerate(tys)])})
+            elif where == "alias":
+                for j, t in enumerate(tys):
+                    citems.append({"kind": "alias", "attrs": list(ts), "ident": "%s%d" % (nm, j), "generics": [], "ty": t})
+            else:
+                vs = []
+                for j, t in enumerate(tys):
+                    fs = ("unnamed", [field([], None, t)]) if where == "tuple-variant" else ("named", [field([], "inner", t)])
+                    vs.append({"attrs": [], "ident": "V%d" % j, "fields": fs})
+                vs.append({"attrs": [], "ident": "Nothing", "fields": ("unit",)})
+                citems.append({"kind": "enum", "attrs": list(ts) + [m_list("serde", [m_nv("tag", lit_s("t")), m_nv("content", lit_s("c"))])],
+                               "ident": nm, "generics": [], "variants": vs})
+        head = citems[:3]
+        rest = citems[3:]
+        rng.shuffle(rest)
+        citems = head + rest if rng.random() < 0.5 else rest + head
+        if how == "use":
+            uses = [{"kind": "use", "tree": ("upath", prov, ("uname", t[0]))} for t in types]
+        elif how == "use-group":
+            uses = [{"kind": "use", "tree": ("upath", prov, ("ugroup", [("uname", t[0]) for t in types]))}]
+        elif how == "glob":
+            uses = [{"kind": "use", "tree": ("upath", prov, ("uglob",))}]
+        else:
+            uses = []
+        uf = {"attrs": [], "items": uses + citems}
+        jobs = [{"crate": prov, "file_name": prov + ".out", "path": "%s/src/lib.rs" % prov, "file": pf},
+                {"crate": "ledger", "file_name": "ledger.out", "path": "ledger/src/lib.rs", "file": uf}]
+        allnames |= l2.names_of(pf) | l2.names_of(uf)
+        for lang in LANGS:
+            pfx = rng.choice(["", "OP", "Core_"]) if lang in ("kotlin", "swift") else ""
+            m, r, texts = l2.requests(lang, cfg_of(lang, pfx), jobs, g, multi_file=True)
+            mreqs.append(m)
+            rreqs.append(r)
+            meta.append((lang, pfx, prov, how, types, plan, texts, r))
+    mans = [l2.norm(a) for a in model(mreqs, names=allnames)]
+    rans = [l2.norm(a) for a in runner(rreqs)]
+    mismatch = None
+    for (lang, pfx, prov, how, types, plan, texts, rreq), ma, ra in zip(meta, mans, rans):
+        only = plan[0][3][0] if len(plan[0][3]) == 1 else None
+        check.saw(("argument-position", lang, pfx, how, json.dumps(plan)), nontrivial=True)
+        check.count("argument-position-%s" % lang)
+        for rust, new, where, chosen in plan:
+            for f in chosen:
+                check.count("argument-position:%s" % f)
+        if only:
+            check.count("argument-position-only-mention-not-last")
+        case = {"lang": lang, "prefix": pfx, "import": how, "sources": dict(zip(["%s/src/lib.rs" % prov, "ledger/src/lib.rs"], texts)),
+                "mentions": [{"type": p[0], "defined_as": pfx + p[1], "in": p[2], "positions": p[3]} for p in plan], "request": rreq,
+                "replay": "put the two sources into a folder (<dir>/%s/src/lib.rs, <dir>/ledger/src/lib.rs) and run `typeshare <dir> --lang %s "
+                          "--output-folder <out>`%s" % (prov, lang, {"kotlin": " --kotlin-prefix %s --java-package com.example" % pfx if pfx else " --java-package com.example",
+                                                                     "swift": " --swift-prefix %s" % pfx if pfx else "", "scala": " --scala-package com.example",
+                                                                     "go": " --go-package proto"}.get(lang, ""))}
+        if "ok" not in ra:
+            if ma != ra and mismatch is None:
+                mismatch = (case, ma, ra)
+            continue
+        files = {c: t for c, t in ra["ok"].items() if not c.startswith("<post>/")}
+        ex = {c: extract(lang, t) for c, t in files.items()}
+        defined = set().union(*[e[0] | e[1] for e in ex.values()]) if ex else set()
+        ppfx = pfx if lang in ("kotlin", "swift") else ""
+        go_enum = {new for rust, new, kind in types if lang == "go" and kind == "unit" and new != rust}
+        for c, (defs, aux, refs, params, fields) in sorted(ex.items()):
+            undefined = sorted(n for n in refs if n not in defined and n not in BUILTIN[lang] and n not in params
+                               and n not in go_enum and not (lang == "go" and n == prov))
+            if undefined:
+                culprit = [p for p in plan if ppfx + p[0] in undefined or p[0] in undefined]
+                check.violation("%s folder output (prefix %r, import written as %s): the file of crate `%s` refers to %s, which no file of the run "
+                                "defines (defined: %s)%s" % (lang, pfx, how, c, undefined, sorted(defined),
+                                                            "".join("; `%s` of crate `%s` is defined as `%s` and mentioned by `ledger` as %s (%s)"
+                                                                    % (p[0], prov, ppfx + p[1], " + ".join(p[3]), p[2]) for p in culprit)),
+                                case=case, impl=ra, model=ma, failing_input=True)
+                return
+        # the Rust name of a renamed type is spelled nowhere in the consumer's code (Go names enums after the Rust identifier: listed finding)
+        body = "\n".join(l for l in files.get("ledger", "").split("\n") if not l.lstrip().startswith(("import ", "from ")))
+        for rust, new, where, chosen in plan:
+            if new == rust or (lang == "go" and ppfx + new in go_enum):
+                continue
+            if ppfx + rust in set(idents(code_of(lang, body))):
+                check.violation("%s folder output (prefix %r, import written as %s): crate `%s` defines `%s` as `%s`, the file of `ledger` "
+                                "(which mentions it as %s, %s) still spells the Rust name `%s`"
+                                % (lang, pfx, how, prov, rust, ppfx + new, " + ".join(chosen), where, ppfx + rust),
+                                case=case, impl=ra, model=ma, failing_input=True)
+                return
+        if ma != ra and mismatch is None:
+            mismatch = (case, ma, ra)
+    if mismatch:
+        case, ma, ra = mismatch
+        check.violation("%s multi-file generation differs from the model on a cross-crate type in a non-last type-argument position" % case["lang"],
+                        case=case, impl=ra, model=ma, failing_input=False,
+                        broken="correspondence L2 parse (reconcile_referenced_types) + reconcile across crates (theorems TsV.C09.C09_reconcile_*)")
+
+
+def qualify(t, names, crate):
+    """the type tree with every path to one of `names` written as `crate::Name`"""
+    if t[0] == "path":
+        _, quals, last, args, lt = t
+        return ("path", [crate] if last in names and not quals else list(quals), last, [qualify(a, names, crate) for a in args], lt)
+    return t
+
+
 def odd_rename_part(check):
     """type-level serde(rename) values that are not identifiers (a dash, a dot, a leading digit, a blank - XML / wire names): whatever
     a back end makes of such a name, it makes the same of it where the type is defined and where it is referred to"""
@@ -942,7 +1164,7 @@ def go_acronym_part(check):
     g = mkgen(rng)
     ts = [m_path("typeshare")]
     pool = ["AccountId", "ApiUrl", "UserId", "HttpApi", "IdCard", "UrlId", "Plain"]
-    ncases = 120 if check.thorough else 24
+    ncases = 330 if check.thorough else 33
     mreqs, rreqs, meta = [], [], []
     for k in range(ncases):
         names = rng.sample(pool, 3)
@@ -1550,8 +1772,13 @@ def run(check):
                   "struct_variant_members_part: 1-2 tagged enums (renamed or not, generic or not) of 1-5 variants whose struct variants "
                   "declare 0 / 1 / 2-4 members with none / some / all of them removed by serde(skip), typeshare(skip), cfg(target_os) under "
                   "--target-os or a mixture (combinations %s, each leading equally often); every referenced name and every `...Inner` word of "
-                  "the code must be defined; model text and TsV.C09.allDefs/refs compared as well"
-                  % (NAMES, KINDS, PREFIXES, [s[0] for s in SHAPES], ["/".join(str(x) for x in l if x) for l in SV_LEADS]))
+                  "the code must be defined; model text and TsV.C09.allDefs/refs compared as well.  "
+                  "argument_position_part (folder mode, two crates): 2-4 types of a provider crate (struct / unit enum / alias, renamed or not) "
+                  "imported by name, in a group or written as qualified paths, each mentioned in the positions %s of HashMap / "
+                  "Pair<A, B> / Triple<A, B, C> from a field, an alias target, a tuple-variant payload or a struct-variant member; every "
+                  "non-last position leads equally often as the only mention of its type; every name a file refers to must be defined by "
+                  "some file of the run and the Rust name of a renamed type spelled nowhere; model text compared as well"
+                  % (NAMES, KINDS, PREFIXES, [s[0] for s in SHAPES], ["/".join(str(x) for x in l if x) for l in SV_LEADS], ARG_FORMS))
     cases = []
     n = 3000 if check.thorough else 1500
     for i in range(n):
@@ -1601,6 +1828,9 @@ def run(check):
         multi_part(check)
     if not check.has_failing():
         cross_crate_part(check)
+    if not check.has_failing():
+        argument_position_part(check)
+        replay_glob_renamed(check)
     if not check.has_failing():
         odd_rename_part(check)
     if not check.has_failing():
